@@ -26,7 +26,7 @@ CSV = CS + "Service"
 CSVT = TObj(CSV)
 klass(CSV, fields=dict(sid=TStr, service_meta=TPyDict(dict(state=TInt))),
       invariant=["0 <= self.service_meta['state']", "self.service_meta['state'] < 32"])
-inline(CSV + ".get_current_service_state", CSV + ".set_current_service_state")
+inline(CSV + ".get_current_service_state", CSV + ".set_current_service_state", CSV + "._store_service_meta")
 NEW = "self.service_meta['state']"
 OLD = "old(self.service_meta['state'])"
 contract(CSV + ".update_current_client_service_state_by_server_service_state",
@@ -41,7 +41,7 @@ contract(CSV + ".update_current_client_service_state_by_server_service_state",
          no_runtime=True, props=["C11", "C13", "C09"])
 
 # ---- server: handlers over a ghost disk (D1) and a ghost message trace ----------------------------------------------
-from pyvc.engine import Opaque, Ref, SV, Unsupported, PyRaise
+from pyvc.engine import Opaque, Ref, SV, Unsupported, PyRaise, MaybeNone
 from pyvc import externals
 SS = "frontend/server/services/service.py:"
 SV_ = SS + "Service"
@@ -160,8 +160,8 @@ for nm_ in ("_load_sse_scheme", "_load_sse_encrypted_database", "_load_sse_modul
 klass(SV_, fields=dict(sid=TStr, service_meta=TPyDict(dict(state=TInt)), config=TAny, websocket=TAny, sse_module_loader=TAny,
                        config_object=TAny, sse_scheme=TAny, edb=TAny),
       invariant=["0 <= self.service_meta['state']", "self.service_meta['state'] <= 2"],
-      consts={"sse_module_loader": Opaque("loader"), "config_object": Opaque("cfg"), "sse_scheme": Opaque("scheme"), "edb": Opaque("edb"),
-              "websocket": Opaque("ws"), "config": Opaque("config")})
+      consts={"sse_module_loader": MaybeNone("loader"), "config_object": MaybeNone("cfg"), "sse_scheme": MaybeNone("scheme"),
+              "edb": MaybeNone("edb"), "websocket": MaybeNone("ws"), "config": MaybeNone("config")})
 inline(SV_ + ".get_current_service_state", SV_ + "._store_service_meta", SV_ + ".send_init_echo")
 ST_ = "self.service_meta['state']"
 SRV_GHOSTS = ["srv_dir", "srv_meta", "srv_cfg", "srv_edb", "sent"]
@@ -218,3 +218,118 @@ contract(SV_ + ".__init__", params=dict(self=SVT, sid=TStr, websocket=TAny), mod
                         "len(sent) == len(old(sent)) + 1", "sent[len(sent) - 1][0] == 'init'", "reply_ok(sent[len(sent) - 1][1])",
                         "reply_state(sent[len(sent) - 1][1]) == %s" % ST_],
          no_runtime=True, modifies_ghost=["sent"], props=["C10", "C13", "C09"])
+
+
+# =====================================================================================================================
+# client: the synchronous handlers over a ghost client disk (C11: prerequisites, refusals change nothing, key written once)
+# =====================================================================================================================
+CFM = "frontend/client/services/file_manager.py:"
+for g_ in ("cli_meta",):
+    ghost_var(g_, STRI)      # sid -> state recorded in <sid>/service_meta
+ghost_var("cli_cfg", STRI)   # sid -> 1 when <sid>/config.json exists
+ghost_var("cli_key", STRB)   # sid -> contents of <sid>/key
+ghost_var("cli_edb", STRB)   # sid -> contents of <sid>/edb (the local copy of the index)
+CLI_GHOSTS = ["cli_meta", "cli_cfg", "cli_key", "cli_edb"]
+
+
+def _cput(E, name, sid, val):
+    d = E.ghostv[name]
+    E.ghostv[name] = SV(z3.Store(d.t, sid, sort(TOpt(d.ty.val)).some(val)), d.ty)
+
+
+def _as_bytes(E, v, what):
+    return E.fresh(what, TBytes) if isinstance(v, Opaque) else E.to_sv(v, TBytes)
+
+
+@effect(CFM + "write_service_meta", "D1: replaces <sid>/service_meta atomically")
+def _c_wmeta(E, a, kw, fr, node):
+    from pyvc.engine import z3_int
+    _cput(E, "cli_meta", _sid(E, a[0]), z3_int(E.get_subscript(a[1], "state", node, fr)))
+
+
+@effect(CFM + "write_key", "D1: writes <sid>/key")
+def _c_wkey(E, a, kw, fr, node):
+    _cput(E, "cli_key", _sid(E, a[0]), _as_bytes(E, a[1], "key_bytes").t)
+
+
+@effect(CFM + "write_encrypted_database", "D1: writes <sid>/edb")
+def _c_wedb(E, a, kw, fr, node):
+    _cput(E, "cli_edb", _sid(E, a[0]), _as_bytes(E, a[1], "edb_bytes").t)
+
+
+@effect(CFM + "delete_encrypted_database", "D1: unlinks <sid>/edb (missing_ok)")
+def _c_dedb(E, a, kw, fr, node):
+    d = E.ghostv["cli_edb"]
+    E.ghostv["cli_edb"] = SV(z3.Store(d.t, _sid(E, a[0]), sort(TOpt(TBytes)).none), d.ty)
+
+
+@effect(CFM + "read_key", "D1: reads <sid>/key")
+def _c_rkey(E, a, kw, fr, node):
+    d = E.ghostv["cli_key"]
+    return SV(sort(TOpt(TBytes)).val(z3.Select(d.t, _sid(E, a[0]))), TBytes)
+
+
+for nm_ in ("_load_sse_scheme", "_load_sse_encrypted_database", "_load_sse_module", "_load_config_object", "_load_sse_key"):
+    effect(CSV + "." + nm_, "trusted: lazy loaders read files and build scheme objects; no effect on the client disk")(lambda E, a, kw, fr, node: None)
+effect(CSV + ".short_sid", "display helper")(lambda E, a, kw, fr, node: Opaque("short sid"))
+_orig_loads = externals.EXT["pickle.loads"]
+
+
+def _loads_echo(E, a, kw, fr, node):
+    """client side: an echo message is a pickled dict; its `ok` field is the abstract predicate reply_ok of the bytes"""
+    if E.frames and E.frames[0].key.startswith(CSV + ".handle_upload") and E.frames[0].key.split("#")[0].endswith("_echo"):
+        b = E.to_sv(a[0], TBytes)
+        return E.alloc(("pydict", {"ok": SV(reply_ok(b.t), TBool), "reason": ""}))
+    return _orig_loads(E, a, kw, fr, node)
+
+
+externals.EXT["pickle.loads"] = _loads_echo
+CLASSES[CSV].fields.update(dict(config=TAny, config_object=TAny, sse_scheme=TAny, sse_module_loader=TAny, edb=TAny, key=TAny, websocket=TAny))
+# optional fields the contracts say nothing about: each may be None or an object (one unconstrained boolean per field)
+CLASSES[CSV].consts = {"config": MaybeNone("config"), "config_object": MaybeNone("cfg"), "sse_scheme": MaybeNone("scheme"),
+                       "sse_module_loader": MaybeNone("loader"), "edb": MaybeNone("edb"), "key": MaybeNone("key"),
+                       "websocket": MaybeNone("ws")}
+CST = "self.service_meta['state']"
+OCST = "old(self.service_meta['state'])"
+# client invariant: flags mirror the files -- config created <=> a state record exists (and equals the in-memory state),
+# key created <=> key file exists, index built and not yet uploaded => local index file exists
+CINV = ["flag(%s, 0) == (self.sid in cli_meta)" % CST, "implies(self.sid in cli_meta, cli_meta[self.sid] == %s)" % CST,
+        "flag(%s, 2) == (self.sid in cli_key)" % CST, "implies(flag(%s, 3) and not flag(%s, 4), self.sid in cli_edb)" % (CST, CST),
+        "0 <= %s" % CST, "%s < 32" % CST]
+C_UNCHANGED = ["cli_meta == old(cli_meta)", "cli_cfg == old(cli_cfg)", "cli_key == old(cli_key)", "cli_edb == old(cli_edb)",
+               "%s == %s" % (CST, OCST)]
+
+
+def _only_bit(b):
+    return ["flag(%s, %d)" % (CST, b)] + ["flag(%s, %d) == flag(%s, %d)" % (CST, o, OCST, o) for o in range(5) if o != b]
+
+
+contract(CSV + ".handle_create_key", params=dict(self=CSVT), modifies=["self"], requires=CINV,
+         raises={"ValueError": dict(when="flag(%s, 2) or not flag(%s, 0)" % (OCST, OCST), iff=True)},
+         raise_ensures={"ValueError": C_UNCHANGED},
+         ensures=CINV + _only_bit(2) + ["not (self.sid in old(cli_key))",        # a key is only ever written where none existed
+                                        "cli_meta == dput(old(cli_meta), self.sid, %s)" % CST, "cli_edb == old(cli_edb)",
+                                        "cli_cfg == old(cli_cfg)", "self.sid == old(self.sid)"],
+         no_runtime=True, modifies_ghost=["cli_meta", "cli_key"], props=["C11", "C13"])
+contract(CSV + ".handle_encrypt_database", params=dict(self=CSVT, database=TAny), modifies=["self"], requires=CINV,
+         raises={"ValueError": dict(when="flag(%s, 3) or not flag(%s, 0) or not flag(%s, 2)" % (OCST, OCST, OCST), iff=True)},
+         raise_ensures={"ValueError": C_UNCHANGED},
+         ensures=CINV + _only_bit(3) + ["cli_key == old(cli_key)", "self.sid in cli_edb",
+                                        "cli_meta == dput(old(cli_meta), self.sid, %s)" % CST, "cli_cfg == old(cli_cfg)",
+                                        "self.sid == old(self.sid)"],
+         no_runtime=True, modifies_ghost=["cli_meta", "cli_edb"], props=["C11", "C13"])
+contract(CSV + ".handle_upload_config_echo", params=dict(self=CSVT, content_bytes=TBytes), modifies=["self"],
+         requires=CINV + ["flag(%s, 0)" % CST],
+         ensures=CINV + ["implies(not reply_ok(content_bytes), %s == %s and cli_meta == old(cli_meta))" % (CST, OCST),
+                         "implies(reply_ok(content_bytes), flag(%s, 1) and cli_meta == dput(old(cli_meta), self.sid, %s))" % (CST, CST)] +
+                 ["flag(%s, %d) == flag(%s, %d)" % (CST, o, OCST, o) for o in (0, 2, 3, 4)] +
+                 ["cli_key == old(cli_key)", "cli_edb == old(cli_edb)", "cli_cfg == old(cli_cfg)", "self.sid == old(self.sid)"],
+         no_runtime=True, modifies_ghost=["cli_meta"], props=["C11", "C13", "C09"])
+contract(CSV + ".handle_upload_encrypted_database_echo", params=dict(self=CSVT, content_bytes=TBytes), modifies=["self"],
+         requires=CINV + ["flag(%s, 0)" % CST],
+         ensures=CINV + ["implies(not reply_ok(content_bytes), %s == %s and cli_meta == old(cli_meta) and cli_edb == old(cli_edb))" % (CST, OCST),
+                         "implies(reply_ok(content_bytes), flag(%s, 4) and cli_meta == dput(old(cli_meta), self.sid, %s) "
+                         "and cli_edb == ddel(old(cli_edb), self.sid))" % (CST, CST)] +
+                 ["flag(%s, %d) == flag(%s, %d)" % (CST, o, OCST, o) for o in (0, 1, 2, 3)] +
+                 ["cli_key == old(cli_key)", "cli_cfg == old(cli_cfg)", "self.sid == old(self.sid)"],
+         no_runtime=True, modifies_ghost=["cli_meta", "cli_edb"], props=["C11", "C13", "C09"])
